@@ -187,13 +187,14 @@ func c08TokenGuards(r *core.Run) {
 		for _, a := range acts {
 			eq := false
 			notExp := false
-			for _, cd := range core.Conditions(a.Block()) {
+			for _, hc := range condsAt(p, a.Block()) {
+				cd := hc.Cond
 				if call, ok := cd.Val.(*ssa.Call); ok && cd.Truth {
 					if o := core.CalleeObj(call); o != nil && core.QualName(o) == "bytes.Equal" {
 						// one operand is the token parameter, the other the stored value
 						hasTok, hasVal := false, false
 						for _, arg := range call.Call.Args {
-							if pa, isP := arg.(*ssa.Parameter); isP && pa.Name() == "token" {
+							if pa, isP := hc.Resolve(arg).(*ssa.Parameter); isP && pa.Name() == "token" && pa.Parent() == fn.SSA {
 								hasTok = true
 							}
 							if c2, isC := arg.(*ssa.Call); isC && methodName(c2) == "Value" {
